@@ -129,6 +129,7 @@ def run(ctx):
     from .c17 import trash
     trash(ctx, 'C09.R3')
     per_instance_state(ctx, 'C09.R3')
+    record_completeness(ctx, 'C09.R3')
     return {'explanation': 'R1: signed data dependence of the accumulated amount on the step records must be exactly '
                            '{to[1]: +, to[0]: -, frm[1]: +, frm[0]: -, trash: +}, each side under the membership test of '
                            'that record\'s name in the destination set, accumulated from zero over the steps of the '
@@ -252,6 +253,45 @@ def count_paths(stmts, pred):
 def _is_type_dispatch(s):
     t = s.test
     return isinstance(t, ast.Call) and isinstance(t.func, ast.Name) and t.func.id == 'isinstance'
+
+
+def record_completeness(ctx, rule):
+    """Every object a step changes is part of its record: whatever a branch of bake stores back into self.results[K]
+    must also be appended (as the post-state) to step.to or step.frm - otherwise the tracking queries never see that the
+    object changed (flows 0, no amount remaining)."""
+    from .c08 import _same_name
+    model = ctx.model
+    bake = model.func('Recipe.bake')
+    ff = ctx.flow('Recipe.bake')
+    branches = bake_branches(ctx)
+    n = 0
+    for op, (body, node) in sorted(branches.items()):
+        stores = [s_ for s_ in ff.stores if s_[2] and s_[2].startswith('self.results[') and _inside(s_[0], node)]
+        recorded = []       # (path key text, resolved key expression) of every appended self.results[..]
+        for c, s_, b in ff.calls:
+            raw = c.orig if hasattr(c, 'orig') else c
+            if not ((_is_append_to(raw, 'to') or _is_append_to(raw, 'frm')) and _inside(s_, node)) or not c.args:
+                continue
+            for x in deep_walk(c.args[0], follow_refs=False):
+                if isinstance(x, Ref) and x.name.startswith('self.results['):
+                    tgt = getattr(x.stmt, 'targets', None)
+                    recorded.append((x.name, None))
+                k = getattr(x, 'pkey', None)
+                if k and k.startswith('self.results[') and isinstance(x, ast.Subscript):
+                    recorded.append((k, x.slice))
+        seen = set()
+        for stmt, target, key, value, before, rt in stores:
+            if key in seen:
+                continue
+            seen.add(key)
+            n += 1
+            ok = any(key == k2 or (sl is not None and (same_value(strip_refs(rt.slice), strip_refs(sl)) or _same_name(rt.slice, sl)))
+                     for k2, sl in recorded)
+            ctx.ob(rule, bake, stmt.lineno, f"`{op}` branch: the object stored back under `{show(rt.slice, 25)}` is recorded in the step",
+                   ok, fact=f"post-states appended: {sorted({k2 for k2, sl in recorded})}",
+                   why='the step changes a declared object without recording it: its flows are reported as 0 and it has no '
+                       'amount remaining for that timeframe', key=f"unrecorded changed object in {op}")
+    return n
 
 
 def _is_append_to(n, attr):
